@@ -118,6 +118,28 @@ class HdrMachine(StructMachine):
                 return recv
             if meth == "trim" and (recv.total() == 0 or not (recv.may_be_space(0) or recv.may_be_space(recv.total() - 1))):
                 return recv
+            if meth in ("strip_suffix", "strip_prefix", "ends_with", "starts_with") and args and isinstance(args[0], str) and args[0]:
+                nd, tot = args[0], recv.total()
+                if len(nd) > tot:
+                    hit = False
+                else:
+                    off = tot - len(nd) if meth in ("strip_suffix", "ends_with") else 0
+                    hit = True
+                    for k, ch in enumerate(nd):
+                        c, al = recv.at(off + k)
+                        if c is None:
+                            if ch in al:
+                                raise Unsupported("%s(%r) depends on a symbolic character" % (meth, nd))
+                            hit = False
+                            break
+                        if c != ch:
+                            hit = False
+                            break
+                if meth in ("ends_with", "starts_with"):
+                    return hit
+                if not hit:
+                    return Opt(False, None)
+                return Opt(True, recv.slice(0, tot - len(nd)) if meth == "strip_suffix" else recv.slice(len(nd), tot))
             if meth == "trim":
                 # s = lead ++ t ++ trail with lead, trail blank and t neither starting nor ending with a blank (unique)
                 n = len(self.constraints)
@@ -331,6 +353,10 @@ def tag_roundtrip(prog, timeout_ms=60000):
                 s = z3.Solver()
                 s.set("timeout", timeout_ms)
                 s.add(*m.constraints)
+                if s.check() != z3.sat:
+                    rec.update({"verdict": "error", "detail": "vacuous: the constraints on the symbolic text are not satisfiable", "time_s": 0})
+                    res.append(rec)
+                    continue
                 s.add(B(r1.ok), o1 != text.s)
                 r = s.check()
                 rec.update({"verdict": str(r), "time_s": round(time.time() - t0, 2)})
